@@ -2,10 +2,12 @@
    Proofs/ConnFail_proofs.v; the statements are pinned again in /verif/pins/C10.v.
 
    Model: Model/ConnFail.v — one CQL connection (byte-stream reader, handler map, submit queue,
-   keepaliver, orphaner, teardown of router()) as a labelled transition system [step]; a
+   keepaliver, orphaner, two-phase submit into the task channel, teardown of router() as of
+   /repo bbe7c96) as a labelled transition system [step]; a
    schedule is an arbitrary list of labels, [run] folds [step] over it; [reachable ctl st] = some
    schedule leads from the initial state to [st].  [pending_rids st] = the requests whose callers
-   can still be waiting: request ids in the handler map and in the submit queue. *)
+   can still be waiting: request ids in the handler map, in the task channel, and of senders that
+   hold a channel slot ([c_reserved]). *)
 From SV Require Import Base.Prelude Base.Bytes Model.ConnFail Proofs.ConnFail_proofs.
 Open Scope N_scope.
 
@@ -13,14 +15,16 @@ Open Scope N_scope.
    for a stream nobody waits on, keepalive timeout, io error) has put the connection into
    teardown, every request that was pending right after the fault step ends up completed with
    an error of the BrokenConnection class when the teardown has finished -- whatever else is
-   interleaved (new submits, dropped callers, late bytes). *)
+   interleaved (new submits, pushes of senders that held a slot, dropped callers, late bytes) --
+   and whatever is completed after the fault is completed with such an error. *)
 Theorem C10_all_fail : forall ctl ls1 l ls2 st1 st2 st3 e e',
   run (conn_init ctl) ls1 = Some st1 ->
   step st1 l = Some st2 -> c_status st2 = TearingDown e ->
   run st2 ls2 = Some st3 -> c_status st3 = Broken e' ->
   e' = e /\
-  forall r, In r (pending_rids st2) ->
-    exists o, outcome_of r (c_done st3) = Some o /\ broken_class o = true.
+  (forall r, In r (pending_rids st2) ->
+     exists o, outcome_of r (c_done st3) = Some o /\ broken_class o = true) /\
+  (forall r o, outcome_of r (c_done st3) = Some o -> In (r, o) (c_done st2) \/ broken_class o = true).
 Proof. exact all_fail. Qed.
 
 (* Invariant "nobody is forgotten": in every reachable state every request ever submitted is
@@ -37,26 +41,45 @@ Theorem C10_none_left : forall ctl st e r,
   (exists o, outcome_of r (c_done st) = Some o) \/ In r (c_cancelled st).
 Proof. exact none_left. Qed.
 
-(* A request submitted to a connection that is tearing down or broken fails at once. *)
+(* A request submitted after receiver.close() fails at once with ChannelError; one submitted
+   while the handlers are still being failed is accepted -- and is then pending, i.e. covered by
+   C10_all_fail / C10_none_left (the drain fails it). *)
 Theorem C10_later_submit_fails : forall ctl st r st',
-  reachable ctl st -> c_status st <> Open -> step st (Submit r) = Some st' ->
+  reachable ctl st -> chan_closed st = true -> step st (Reserve r) = Some st' ->
   outcome_of r (c_done st') = Some FailChannel /\ pending_rids st' = pending_rids st.
 Proof. exact later_submit_fails. Qed.
 
-(* Progress: in teardown a step is always enabled and strictly decreases the measure ... *)
-Theorem C10_teardown_progress : forall st e, c_status st = TearingDown e ->
-  exists st', step st TdStep = Some st' /\ (td_measure st' < td_measure st)%nat /\
-    ((c_status st' = TearingDown e /\ td_measure st' = pred (td_measure st)) \/
-     (c_status st' = Broken e /\ pending_rids st' = [] /\ c_err_sent st' = true /\ td_measure st = 1%nat)).
-Proof. exact td_progress. Qed.
+Theorem C10_submit_during_teardown : forall ctl st e r st',
+  reachable ctl st -> c_status st = TearingDown e -> step st (Reserve r) = Some st' ->
+  c_status st' = TearingDown e /\ In r (pending_rids st').
+Proof. exact submit_during_teardown. Qed.
 
-(* ... so the teardown finishes after exactly [td_measure] steps with no pending request and the
+(* Progress: while tearing down / draining, a step of the router ([TdStep]) is enabled, or -- when
+   the router waits in recv() for a sender that holds a slot -- the [Push] of that sender is; the
+   step strictly decreases [td_measure] (handlers + queue + 2*reserved + phase) ... *)
+Theorem C10_teardown_progress : forall ctl st e, reachable ctl st ->
+  c_status st = TearingDown e \/ c_status st = Draining e ->
+  exists st', td_next st = Some st' /\ (td_measure st' < td_measure st)%nat /\
+    (c_status st' = TearingDown e \/ c_status st' = Draining e \/
+     (c_status st' = Broken e /\ pending_rids st' = [] /\ c_err_sent st' = true)).
+Proof. intros ctl st e H. exact (td_next_progress st e (inv_reachable _ _ H)). Qed.
+
+(* ... after receiver.close() no step of anybody makes the remaining work grow ... *)
+Theorem C10_draining_monotone : forall st l st' e,
+  c_status st = Draining e -> step st l = Some st' -> (td_measure st' <= td_measure st)%nat.
+Proof. exact draining_monotone. Qed.
+
+(* ... so the teardown finishes within [td_measure] such steps with no pending request and the
    error handed to the pool. *)
-Theorem C10_teardown_terminates : forall n st e,
-  c_status st = TearingDown e -> td_measure st = S n ->
-  exists st', run st (repeat TdStep (S n)) = Some st' /\ c_status st' = Broken e /\
-              pending_rids st' = [] /\ c_err_sent st' = true.
-Proof. exact td_terminates. Qed.
+Theorem C10_teardown_terminates : forall ctl n st e, reachable ctl st ->
+  c_status st = TearingDown e \/ c_status st = Draining e -> (td_measure st <= n)%nat ->
+  c_status (teardown n st) = Broken e /\ pending_rids (teardown n st) = [] /\
+  c_err_sent (teardown n st) = true.
+Proof. intros ctl n st e H. exact (td_terminates n st e (inv_reachable _ _ H)). Qed.
+
+Theorem C10_teardown_is_a_run : forall fuel st, exists ls, run st ls = Some (teardown fuel st) /\
+  Forall (fun l => l = TdStep \/ exists r, l = Push r) ls /\ (List.length ls <= fuel)%nat.
+Proof. exact teardown_run. Qed.
 
 (* The peer can cut after any chunk: in an open state a chunk is always accepted, and if the
    connection survives it, end of stream puts it into teardown (inside a header or inside a body). *)
@@ -67,15 +90,41 @@ Theorem C10_cut_anywhere : forall st bs, c_status st = Open ->
 Proof. exact cut_anywhere. Qed.
 
 (* Top-level corollary: after ANY history, once any step has put the connection into teardown,
-   exactly [td_measure] teardown steps complete every request ever submitted (or its caller had
-   dropped it), and the error reaches the pool. *)
+   at most [td_measure] steps of the router and of the senders that hold a slot complete every
+   request ever submitted (or its caller had dropped it), and the error reaches the pool. *)
 Theorem C10_fault_completes_all : forall ctl ls l st st2 e,
   run (conn_init ctl) ls = Some st -> step st l = Some st2 -> c_status st2 = TearingDown e ->
-  exists st3, run st2 (repeat TdStep (td_measure st2)) = Some st3 /\ c_status st3 = Broken e /\
-    c_err_sent st3 = true /\
+  exists fin st3, run st2 fin = Some st3 /\ Forall (fun l => l = TdStep \/ exists r, l = Push r) fin /\
+    (List.length fin <= td_measure st2)%nat /\
+    c_status st3 = Broken e /\ c_err_sent st3 = true /\
     forall r, In r (c_submitted st2) ->
       (exists o, outcome_of r (c_done st3) = Some o) \/ In r (c_cancelled st3).
 Proof. exact fault_completes_all. Qed.
+
+(* What /repo bbe7c96 repaired (finding F15, fixed): with the end of router() as it was before --
+   receiver dropped with the writer, no wait for senders holding a slot ([old_finish]) -- there is a
+   reachable state from which the old teardown plus the push of such a sender leaves the request
+   in the task channel of a finished router: NO schedule ever completes it.  With the present
+   [step] the same history ends with the request failed (second statement). *)
+Theorem C10_pre_fix_router_strands :
+  exists st r, reachable false st /\ c_status st = Open /\ c_reserved st = [r] /\
+    let st1 := old_finish EHeaderIo st in
+    c_status st1 = Broken EHeaderIo /\ c_err_sent st1 = true /\
+    exists st2, step st1 (Push r) = Some st2 /\
+      forall ls st3, run st2 ls = Some st3 -> In r (c_queue st3) /\ outcome_of r (c_done st3) = None.
+Proof. exact pre_fix_router_strands. Qed.
+
+Theorem C10_post_fix_router_completes :
+  match run (conn_init false) [Reserve 1; Push 1; WriterTake (Some 0); Reserve 2; Eof; TdStep; TdStep] with
+  | Some st => c_status st = Draining EHeaderIo /\ step st TdStep = None /\
+      match run st [Push 2; TdStep; TdStep] with
+      | Some st' => c_status st' = Broken EHeaderIo /\ outcome_of 2 (c_done st') = Some (FailBroken EHeaderIo) /\
+                    outcome_of 1 (c_done st') = Some (FailBroken EHeaderIo)
+      | None => False
+      end
+  | None => False
+  end.
+Proof. exact post_fix_router_completes. Qed.
 
 (* No caller is handed a partial frame: a delivered frame has a 9 byte header that passed the
    checks of read_response_frame, exactly the announced number of body bytes, and all of it is a
@@ -135,11 +184,12 @@ Proof. exact simulate_settled. Qed.
 Definition ex_hdr (stream len : N) : list N := [132; 0; 0; stream; 8; 0; 0; 0; len].
 
 (* three requests written on streams 0,1,2; the answer to stream 1 arrives in two chunks, then the
-   peer cuts 4 bytes into the next header: request 11 got its frame, 10 and 12 fail, a later submit
-   fails at once, nothing is pending, the error reached the pool. *)
+   peer cuts 4 bytes into the next header: request 11 got its frame, 10 and 12 fail, a submit after
+   receiver.close() fails at once, nothing is pending, the error reached the pool. *)
 Example C10_ex_cut :
-  let ls := [Submit 10; Submit 11; WriterTake (Some 0); WriterTake (Some 1); Submit 12; WriterTake (Some 2);
-             Recv (ex_hdr 1 2 ++ [7]); Recv [9; 132; 0; 0; 0]; Eof; TdStep; Submit 13; TdStep; TdStep] in
+  let ls := [Reserve 10; Push 10; Reserve 11; Push 11; WriterTake (Some 0); WriterTake (Some 1);
+             Reserve 12; Push 12; WriterTake (Some 2);
+             Recv (ex_hdr 1 2 ++ [7]); Recv [9; 132; 0; 0; 0]; Eof; TdStep; TdStep; TdStep; Reserve 13; TdStep] in
   match run (conn_init false) ls with
   | Some st =>
       c_status st = Broken EHeaderIo /\ pending_rids st = [] /\ c_err_sent st = true /\
@@ -151,33 +201,34 @@ Example C10_ex_cut :
   end.
 Proof. vm_compute. repeat split; reflexivity. Qed.
 
-(* the hypotheses of C10_all_fail are met by that schedule, with two requests pending at the fault *)
+(* the hypotheses of C10_all_fail are met, with a request in the handler map, one in the channel and
+   one whose sender holds a slot at the fault *)
 Example C10_ex_all_fail_hyps :
   exists st1 st2 st3,
-    run (conn_init false) [Submit 10; Submit 11; WriterTake (Some 0); Recv [132; 0; 0]] = Some st1 /\
-    step st1 Eof = Some st2 /\ c_status st2 = TearingDown EHeaderIo /\ pending_rids st2 = [10; 11] /\
-    run st2 [TdStep; TdStep; TdStep] = Some st3 /\ c_status st3 = Broken EHeaderIo.
+    run (conn_init false) [Reserve 10; Push 10; Reserve 11; Push 11; WriterTake (Some 0); Reserve 12; Recv [132; 0; 0]] = Some st1 /\
+    step st1 Eof = Some st2 /\ c_status st2 = TearingDown EHeaderIo /\ pending_rids st2 = [10; 11; 12] /\
+    run st2 [TdStep; TdStep; TdStep; Push 12; TdStep; TdStep] = Some st3 /\ c_status st3 = Broken EHeaderIo.
 Proof. eexists. eexists. eexists. vm_compute. repeat split; reflexivity. Qed.
 
 (* fault kinds: frame for a stream nobody waits on; bad version; client direction bit; unknown
    opcode; keepalive timeout; end of stream inside a body *)
 Example C10_ex_faults :
-  (exists st, run (conn_init false) [Submit 1; WriterTake (Some 0); Recv (ex_hdr 5 0)] = Some st /\
+  (exists st, run (conn_init false) [Reserve 1; Push 1; WriterTake (Some 0); Recv (ex_hdr 5 0)] = Some st /\
               c_status st = TearingDown (EUnexpectedStream 5)) /\
   parse_frame [133; 0; 0; 0; 8; 0; 0; 0; 0] = Bad (VersionNotSupported 5) /\
   parse_frame [4; 0; 0; 0; 8; 0; 0; 0; 0] = Bad FrameFromClient /\
   parse_frame [132; 0; 0; 0; 119; 0; 0; 0; 0] = Bad (UnknownOpcode 119) /\
   parse_frame [132; 0; 0; 0; 8; 255; 255; 255; 255; 1; 2] = NeedMore /\
   parse_frame [132; 0; 0; 0; 8; 0; 0; 0] = NeedMore /\
-  (exists st, run (conn_init false) [Submit 1; WriterTake (Some 0); KaTick 2; WriterTake (Some 1); KaTimeout] = Some st /\
+  (exists st, run (conn_init false) [Reserve 1; Push 1; WriterTake (Some 0); KaTick 2; WriterTake (Some 1); KaTimeout] = Some st /\
               c_status st = TearingDown EKeepaliveTimeout /\ pending_rids st = [1; 2]) /\
-  (exists st, run (conn_init false) [Submit 1; WriterTake (Some 0); Recv (ex_hdr 0 4 ++ [1; 2]); Eof] = Some st /\
+  (exists st, run (conn_init false) [Reserve 1; Push 1; WriterTake (Some 0); Recv (ex_hdr 0 4 ++ [1; 2]); Eof] = Some st /\
               c_status st = TearingDown EClosedInBody).
 Proof. repeat split; try (eexists; vm_compute; repeat split; reflexivity); vm_compute; reflexivity. Qed.
 
 (* an orphaned stream id: the late answer is swallowed, the connection stays open *)
 Example C10_ex_orphan :
-  match run (conn_init false) [Submit 1; WriterTake (Some 0); Drop 1; OrphanProc; Recv (ex_hdr 0 0)] with
+  match run (conn_init false) [Reserve 1; Push 1; WriterTake (Some 0); Drop 1; OrphanProc; Recv (ex_hdr 0 0)] with
   | Some st => c_status st = Open /\ c_orphans st = [] /\ c_handlers st = [] /\ c_done st = [] /\ c_cancelled st = [1]
   | None => False
   end.
@@ -196,6 +247,11 @@ Print Assumptions C10_none_left.
 Print Assumptions C10_later_submit_fails.
 Print Assumptions C10_teardown_progress.
 Print Assumptions C10_teardown_terminates.
+Print Assumptions C10_submit_during_teardown.
+Print Assumptions C10_draining_monotone.
+Print Assumptions C10_teardown_is_a_run.
+Print Assumptions C10_pre_fix_router_strands.
+Print Assumptions C10_post_fix_router_completes.
 Print Assumptions C10_cut_anywhere.
 Print Assumptions C10_fault_completes_all.
 Print Assumptions C10_no_partial.
